@@ -352,6 +352,13 @@ func (s *scanner) isDone(resp *pb.ScanResponse, region hrpc.RegionInfo) bool {
 	}
 
 	//  Reversed Scanner
+	if len(s.rpc.StopRow()) != 0 && bytes.Compare(s.rpc.StopRow(), s.startRow) >= 0 {
+		// (4) nothing is left between the (exclusive) stop row and the row the
+		// scan of the next region would start from. This matters when they are
+		// equal (the region starts at stop_row + 0x00): HBase takes a scan with
+		// equal start and stop rows for a get and returns the stop row.
+		return true
+	}
 	return len(s.rpc.StopRow()) != 0 && // (2)
 		bytes.Compare(s.rpc.StopRow(), region.StartKey()) >= 0 // (3)
 }
